@@ -45,7 +45,11 @@ def tree(nleaves, depth):
             st.tuples(st.just("mul"), ch, ch).map(list),
             st.tuples(st.just("div"), ch, ch).map(list),
             st.tuples(st.just("inv"), ch).map(list),
-            st.tuples(st.just("pow"), ch, st.integers(-8, 8)).map(list))
+            st.tuples(st.just("pow"), ch, st.integers(-8, 8)).map(list),
+            # nested large powers: rounding accumulates coherently (X^64 is ~1e-14 off the group, still a member to 1e-9)
+            st.tuples(st.just("pow"), st.tuples(st.just("pow"), ch, st.sampled_from([-8, -7, 7, 8])).map(list), st.sampled_from([-8, -5, 7, 8])).map(list),
+            st.tuples(st.just("pow"), st.tuples(st.just("pow"), st.tuples(st.just("pow"), ch, st.sampled_from([-8, 8])).map(list), st.sampled_from([-8, 8])).map(list),
+                      st.sampled_from([-8, 6, 8])).map(list))
     return st.recursive(leaf, ext, max_leaves=2 ** depth // 2)
 
 
